@@ -335,7 +335,14 @@ pub fn incremental<R: std::io::Read>(r: &mut R, on_step: impl FnMut(&ParseState,
 }
 
 /// As `incremental`, passing `opts` to every call of the incremental API.
-pub fn incremental_opts<R: std::io::Read>(r: &mut R, opts: Option<&peppi::io::slippi::de::Opts>, mut on_step: impl FnMut(&ParseState, Step, u32)) -> Result<ParseState, Fail> {
+pub fn incremental_opts<R: std::io::Read>(r: &mut R, opts: Option<&peppi::io::slippi::de::Opts>, on_step: impl FnMut(&ParseState, Step, u32)) -> Result<ParseState, Fail> {
+	incremental_full(r, opts, false, on_step)
+}
+
+/// `through_raw_end`: do not stop at the first Game End; keep calling `parse_event` for as long as
+/// the declared raw length says there are events left (the second Game End of a doubled end). Only
+/// meaningful when what follows the first Game End inside the raw element is events.
+pub fn incremental_full<R: std::io::Read>(r: &mut R, opts: Option<&peppi::io::slippi::de::Opts>, through_raw_end: bool, mut on_step: impl FnMut(&ParseState, Step, u32)) -> Result<ParseState, Fail> {
 	use peppi::io::slippi::de;
 
 	let raw_len = flat(guard(|| de::parse_header(&mut *r, opts)))?;
@@ -344,14 +351,18 @@ pub fn incremental_opts<R: std::io::Read>(r: &mut R, opts: Option<&peppi::io::sl
 	while raw_len == 0 || state.bytes_read() < raw_len as usize {
 		let code = flat(guard(|| de::parse_event(&mut *r, &mut state, opts)))?;
 		on_step(&state, Step::Event(code), raw_len);
-		if code == 0x39 {
+		if code == 0x39 && !(through_raw_end && raw_len > 0) {
 			break;
 		}
 	}
 	// doubled Game End / junk inside raw: skip like the one-shot reader does
 	if state.bytes_read() < raw_len as usize {
-		let mut buf = vec![0u8; raw_len as usize - state.bytes_read()];
-		r.read_exact(&mut buf).map_err(|e| Fail::Err(e.to_string()))?;
+		// (never sized from the declared length: the file may claim 4 GiB)
+		let want = (raw_len as usize - state.bytes_read()) as u64;
+		let got = std::io::copy(&mut std::io::Read::take(&mut *r, want), &mut std::io::sink()).map_err(|e| Fail::Err(e.to_string()))?;
+		if got < want {
+			return Err(Fail::Err("failed to fill whole buffer".into()));
+		}
 	}
 	let mut b = [0u8; 1];
 	r.read_exact(&mut b).map_err(|e| Fail::Err(e.to_string()))?;
@@ -380,4 +391,22 @@ pub fn ports_of(start: &peppi::game::Start) -> Vec<peppi::frame::PortOccupancy> 
 /// blocks must be identical and the decoded values must render identically.
 pub fn same_start(a: &peppi::game::Start, b: &peppi::game::Start) -> bool {
 	a.bytes == b.bytes && format!("{:?}", a) == format!("{:?}", b)
+}
+
+/// Ports (0-based, with Ice Climbers flag) of a Game Start block.
+pub fn spec_ports(start_block: &[u8]) -> Vec<(u8, bool)> {
+	let chars = crate::view::occupied_chars(start_block);
+	chars.iter().filter(|c| !c.1).map(|c| (c.0, chars.contains(&(c.0, true)))).collect()
+}
+
+/// A small generated replay with the given version and the ports of `start_block` but frame
+/// content of its own: "another game of the same shape", for history and concurrency workloads
+/// where a leak between two calls would otherwise be invisible (same game before and after).
+pub fn sibling_game(ver: (u8, u8, u8), start_block: &[u8], nframes: usize, rng: &mut crate::rng::Rng) -> Option<Vec<u8>> {
+	let ports = spec_ports(start_block);
+	if ports.is_empty() {
+		return None;
+	}
+	let s = crate::gen::base_spec(ver, ports, if ver.0 == 0 && ver.1 == 0 { 0 } else { nframes });
+	Some(crate::gen::build(&s, rng).bytes)
 }
